@@ -129,7 +129,7 @@ def gen(w, rng, tier):
 
     for t in w.withref():
         n = t["n"]
-        pairs = [(i, j) for i in range(n) for j in range(n)]
+        pairs = w.pairs(t, rng)
         if tier == "quick" and len(pairs) > 30:
             pairs = [rng.choice(pairs) for _ in range(30)]
         for (i, j) in pairs:
